@@ -446,7 +446,7 @@ class Interp:
     def cast(s, op, a, fty, tty):
         if isinstance(fty, VecTy) and op != 'bitcast':
             return [s.cast(op, x, fty.el, tty.el) for x in a]
-        if isinstance(a, Undef): return UNDEF
+        if isinstance(a, Undef): return [UNDEF] * tty.n if isinstance(tty, VecTy) else UNDEF
         if op in ('zext', 'sext', 'trunc'):
             fw, tw = fty.w, tty.w
             if op == 'trunc' and isinstance(a, Pack):
